@@ -6,7 +6,8 @@ import numpy as np
 ID = "C06"
 PROPS_FILE = "theories/Props/C06.v"
 EXTRACT = ("theories/Extract/XC06.v", "c06",
-           ["entry_tl", "entry_tli", "entry_idx", "entry_op", "entry_spec", "entry_specidx", "entry_opspec"])
+           ["entry_tl", "entry_tli", "entry_idx", "entry_op", "entry_spec", "entry_specidx", "entry_opspec",
+            "entry_mk", "entry_pat", "entry_mkspec"])
 PYX = {"_cpmorphology2.pyx": ["table_lookup_index", "index_lookup", "prepare_for_index_lookup",
                               "extract_from_image_lookup"]}
 RULE = ("cases: table_lookup(image, table, border, iterations) over shapes 1x1.. (all contents of every shape of "
@@ -445,6 +446,13 @@ def generate(ctx):
         t[~_CENTER] = False
         cases.append({"fn": "idx", "img": _rand_img(rng, H, W).astype(int).tolist(), "tab": _bits(t),
                       "b": int(rng.randint(2)), "it": int(rng.choice([1, 2, 3, -1, 0]))})
+    # (f) the table construction helpers
+    for _ in range(ctx.n(150, 1500)):
+        care = (rng.rand(9) < rng.choice([0.3, 0.7, 1.0])).astype(int).tolist()
+        cases.append({"fn": "mk", "v": int(rng.randint(2)), "pat": rng.randint(0, 2, 9).tolist(),
+                      "care": care if rng.rand() < 0.8 else None, "pdt": str(rng.choice(["bool", "int64"]))})
+    for k in ([0, 1, 16, 255, 256, 511] + rng.randint(0, 512, ctx.n(40, 506)).tolist()):
+        cases.append({"fn": "pat", "k": int(k)})
     # (0) sequences of calls inside one case; first, so that a defect that depends on the calls made before in the
     # same process is reported with a self-contained replay
     seqs = []
@@ -584,6 +592,18 @@ def impl(case):
         if case.get("iso"):
             return _run_seq_isolated(case)
         return _run_seq(M, case)
+    if fn == "mk":
+        pat = np.array(case["pat"], bool if case["pdt"] == "bool" else case["pdt"]).reshape(3, 3)
+        if case["care"] is None:
+            r = M.make_table(bool(case["v"]), pat)
+        else:
+            r = M.make_table(bool(case["v"]), pat, np.array(case["care"], bool if case["pdt"] == "bool" else case["pdt"]).reshape(3, 3))
+        r = np.asarray(r)
+        return {"out": r.astype(int).tolist(), "dtype": str(r.dtype), "shape": list(r.shape)}
+    if fn == "pat":
+        pt = M.pattern_of(case["k"])
+        return {"out": np.asarray(pt).astype(int).reshape(-1).tolist(), "dtype": str(np.asarray(pt).dtype),
+                "shape": list(np.asarray(pt).shape), "index": int(M.index_of(pt))}
     if fn == "tli":
         r = K.table_lookup_index(np.ascontiguousarray(np.array(case["img"], bool), np.uint8))
         return {"out": np.asarray(r).astype(np.int64).tolist(), "dtype": str(r.dtype)}
@@ -624,6 +644,10 @@ def _margs(c):
         return "entry_op", [OPS.index(c["op"]), c["img"], c["mask"] or [], _it(c), _dtcode(c["dt"])]
     if fn == "tli":
         return "entry_tli", [c["img"]]
+    if fn == "mk":
+        return "entry_mk", [c["v"], c["pat"], c["care"] if c["care"] is not None else [1] * 9]
+    if fn == "pat":
+        return "entry_pat", [c["k"]]
     return "entry_idx", [c["img"], _tlist(c["tab"]), c["b"], c["it"]]
 
 
@@ -633,6 +657,10 @@ def _sargs(c):
         return "entry_spec", [c["img"], _tlist(c["tab"]), c["b"], c["it"]]
     if fn == "op":
         return "entry_opspec", [OPS.index(c["op"]), c["img"], c["mask"] or [], _it(c)]
+    if fn == "mk":
+        return "entry_mkspec", [c["v"], c["pat"], c["care"] if c["care"] is not None else [1] * 9]
+    if fn == "pat":
+        return "entry_pat", [c["k"]]
     return "entry_specidx", [c["img"]]
 
 
@@ -683,6 +711,10 @@ def _compare1(case, out, m):
         return "implementation raised/crashed: %s" % (str(out)[:300],)
     if isinstance(m, dict):
         return "model error: %s" % (m,)
+    if case["fn"] == "mk":
+        return None if m == out["out"] else "make_table differs from the Coq model"
+    if case["fn"] == "pat":
+        return None if m == [out["out"], out["index"]] else "pattern_of / index_of differ from the Coq model: impl %s model %s" % ([out["out"], out["index"]], m)
     if m == []:
         return "model ran out of fuel / rejected the case"
     m = m[0] if case["fn"] != "idx" else m
@@ -720,6 +752,20 @@ def _check_flat(ctx, cases, outs):
     spec = _run_grouped(ctx, cases, _sargs, ok)
     for k in ok:
         c, o, s = cases[k], outs[k], spec[k]
+        if c["fn"] == "mk":
+            if o["shape"] != [512] or o["dtype"] != "bool":
+                res[k] = "make_table does not return a boolean array of 512 entries"
+            elif o["out"] != s:
+                res[k] = "make_table entry %d is not `value` exactly on the neighbourhoods matching the pattern where care is set" % (
+                    [a != b for a, b in zip(o["out"], s)].index(True),)
+            continue
+        if c["fn"] == "pat":
+            bits = [(c["k"] >> q) & 1 for q in range(9)]
+            if o["out"] != bits or o["shape"] != [3, 3]:
+                res[k] = "pattern_of(%d) is not the 3x3 bit pattern of the index" % c["k"]
+            elif o["index"] != c["k"]:
+                res[k] = "index_of(pattern_of(%d)) = %d" % (c["k"], o["index"])
+            continue
         if isinstance(s, dict) or s == []:
             res[k] = "the neighbourhood rule does not reach a fixed point on this input but the call was generated (spec out of fuel)"
             continue
@@ -771,6 +817,10 @@ def nontrivial(case, out):
         return False
     if case["fn"] == "seq":
         return any(nontrivial(st, o) for st, o in zip(case["steps"], out.get("steps", [])))
+    if case["fn"] == "mk":
+        return 0 < sum(out["out"]) < 512
+    if case["fn"] == "pat":
+        return case["k"] > 0
     img = case["img"]
     rim = any(img[0]) or any(img[-1]) or any(r[0] or r[-1] for r in img)
     if case["fn"] in ("tl", "op"):
@@ -851,6 +901,8 @@ def shrink_candidates(case):
             for sub in itertools.islice(shrink_candidates(st[k]), 6):
                 if sub["fn"] == st[k]["fn"]:
                     yield mk(st[:k] + [sub] + st[k + 1:])
+        return
+    if case["fn"] in ("mk", "pat"):
         return
     img = case["img"]
     H, W = len(img), len(img[0])
